@@ -931,6 +931,10 @@ func (v *AllScopeVariables) Set(s context.Scope, name, operator string, val valu
 		}
 		return nil
 	case REQ_BACKEND:
+		// No backend is declared in the VCL
+		if v.ctx.Backend == nil {
+			v.ctx.Backend = &value.Backend{}
+		}
 		if err := doAssign(v.ctx.Backend, operator, val); err != nil {
 			return errors.WithStack(err)
 		}
